@@ -676,6 +676,23 @@ func runC18FetcherCache(c *fw.Ctx, id string) {
 			c.Violate("C18", "fetcher-wrong-address", fmt.Sprintf("%s: expected %s after the providers recovered, got %v err=%v", id, ip, got, err), detail())
 		}
 		c.Nontrivial("fetcher/failure-then-success")
+	} else if r.Intn(2) == 0 {
+		// a cold cache met by several callers at once (requests arriving together on one server): each of them gets the
+		// address, and once the burst is over the address is stored - whoever fetched it
+		setScripts(true)
+		var wg sync.WaitGroup
+		for k := 0; k < 3; k++ {
+			wg.Add(1)
+			go func() {
+				defer wg.Done()
+				got, err := f.GetIP(context.Background())
+				if err != nil || !got.Equal(net.ParseIP(ip)) {
+					c.Violate("C18", "fetcher-wrong-address/burst/"+kind, fmt.Sprintf("%s: provider %d answers %s, one of three concurrent GetIP calls returned %v err=%v", id, firstValid, ip, got, err), detail())
+				}
+			}()
+		}
+		wg.Wait()
+		c.Nontrivial("fetcher/cold-burst")
 	} else {
 		setScripts(true)
 		got, err := f.GetIP(context.Background())
